@@ -73,11 +73,17 @@ def explore(run, driver, budget):
     rng = run.rng
     P.NOISE["cells"] = 0
     corpus(run, driver)
-    for i in range(n):
-        pi = ["nonparametric", "gaussian", "bootstrap"][i % 3]
-        case = A.gen_case(rng, pi_method=pi, roles=[r for r in E.ROLES if r != "nan-estimand"])
+    # dedicated requests: only the unit table asked for (the client still adds the office's default levels to the unit frames)
+    dedicated = [("bootstrap", True, ["unit"]), ("nonparametric", True, ["unit"]), ("bootstrap", False, ["unit"]), ("gaussian", True, ["unit", "district"])]
+    for i in range(n + len(dedicated)):
+        if i < len(dedicated):
+            pi, dist, aggs = dedicated[i]
+            case = A.gen_case(rng, pi_method=pi, roles=[r for r in E.ROLES if r != "nan-estimand"], district=dist, aggregates=aggs)
+        else:
+            pi = ["nonparametric", "gaussian", "bootstrap"][i % 3]
+            case = A.gen_case(rng, pi_method=pi, roles=[r for r in E.ROLES if r != "nan-estimand"])
         e = case["election"]
-        if pi == "bootstrap" and "county_fips" not in case["aggregates"] and e.unit_type != "county":
+        if i >= len(dedicated) and pi == "bootstrap" and "county_fips" not in case["aggregates"] and e.unit_type != "county":
             case["aggregates"] = case["aggregates"] + ["county_fips"]
         # bootstrap: an unexpected unit from a state without baseline units is known finding KF-2; one dedicated pair per run
         kinds = None
